@@ -240,6 +240,43 @@ def run_history(case, ctx):
     if h.deep:
         ctx.nontrivial()
 
+# ---------------------------------------------------------------- rows are vectors too
+@st.composite
+def rows_case(draw, tier="quick"):
+    n = draw(st.integers(1, 5))
+    k = draw(st.integers(1, 4))
+    uniform = draw(st.booleans())
+    kinds = [draw(st.sampled_from(["int", "float", "str", "bool", "date"]))] * k if uniform else \
+        [draw(st.sampled_from(["int", "float", "str", "bool", "date"])) for _ in range(k)]
+    cols = [draw(V.column(kind=kd, min_size=n, max_size=n))[1] for kd in kinds]
+    if n >= 2 and draw(st.integers(0, 2)) == 0:
+        # the first row is complete, a later one is not
+        for kd, c in zip(kinds, cols):
+            if c[0] is None:
+                c[0] = draw(V.SCALARS[kd])
+        cols[draw(st.integers(0, k - 1))][draw(st.integers(1, n - 1))] = None
+    return {"cols": cols}
+
+
+def run_rows(case, ctx):
+    """the rows a table hands out (t[i], iteration, their copies) report a schema like every other vector"""
+    cols = case["cols"]
+    t = S.Table({f"c{j}": list(c) for j, c in enumerate(cols)})
+    if not isinstance(t, S.Table):
+        return
+    n = len(cols[0])
+    for i, row in enumerate(t):
+        if check(ctx, row, "row/iterated") or check(ctx, row.copy(), "row/iterated-copy"):
+            return
+    for i in range(-n, n):
+        r = t[i]
+        if check(ctx, r, "row/indexed") or check(ctx, r.copy(), "row/indexed-copy") or check(ctx, r + r if False else None, "row"):
+            return
+    later_none = any(x is None for c in cols for x in c[1:]) and all(c[0] is not None for c in cols)
+    ctx.label("first_row_complete_later_none", int(later_none))
+    if later_none:
+        ctx.nontrivial()
+
 
 def parts(tier):
     mx = 30 if tier == "quick" else 60
@@ -251,5 +288,7 @@ def parts(tier):
         Part("group", run_group, strategy=lambda t: R.group_case(t), examples=(800, 40000), shards=(2, 16)),
         Part("sort", run_sort, strategy=lambda t: c14.sort_case(t), examples=(500, 20000), shards=(1, 16)),
         Part("csv", run_csv, strategy=lambda t: c19.csv_case(t), examples=(800, 30000), shards=(1, 16)),
+        Part("rows", run_rows, strategy=lambda t: rows_case(t), examples=(800, 30000), shards=(2, 16),
+             floors={"first_row_complete_later_none": 0.05}),
         Part("history", run_history, strategy=lambda t: W.program(max_steps=mx), examples=(1500, 32000), shards=(6, 16)),
     ]
